@@ -182,9 +182,37 @@ CSE_UNMERGED = [
 ]
 
 
+def fam_many_rets():
+    """more than 16 return bits with sub-expressions shared across the whole list"""
+    out = []
+    sh1, sh2, sh3 = ["and", "a", "b", "c"], ["or", "c", "d", "e"], ["xor", "a", ["and", "d", "e"]]
+    for n in (17, 20, 33):
+        lst = []
+        for k in range(n):
+            v = SYMS[k % 5]
+            body = [["xor", sh1, sh2, v], ["and", sh3, ["or", sh1, v]], ["or", ["and", sh1, sh2], ["not", v]], ["xor", sh3, sh2]][k % 4]
+            lst.append(["_ret.%d" % k, body])
+        out.append(lst)
+    return out
+
+
+INTERLEAVED = [
+    [["t", ["and", "a", "b"]], ["_ret.0", ["xor", "t", "c"]], ["t", ["or", "a", "b"]], ["_ret.1", ["and", "t", "c"]]],
+    [["_ret.0", ["and", "a", "b"]], ["a", ["xor", "a", "c"]], ["_ret.1", ["or", "a", "b"]]],
+    [["t", ["xor", "a", "b"]], ["_ret.0", "t"], ["t", ["not", "t"]], ["_ret.1", "t"], ["t", ["and", "t", "c"]], ["_ret.2", ["or", "t", "d"]]],
+    [["u", ["or", "a", "b"]], ["_ret.0", ["and", "u", "c"]], ["c", ["not", "c"]], ["_ret.1", ["and", "u", "c"]]],
+    [["t", ["and", "a", ["not", "b"]]], ["_ret", ["or", "t", "c"]], ["t", ["and", "b", ["not", "a"]]]],
+]
+
+
 def make_items(tier, seed):
     rnd = random.Random(77)
     core, rest = [], []
+    for lst in fam_many_rets():
+        core.append({"kind": "synth", "fam": "many-rets", "list": lst})
+    for lst in INTERLEAVED:
+        core.append({"kind": "synth", "fam": "interleaved", "list": lst})
+    core.append({"kind": "prog", "fam": "many-rets", "src": "def prog(a: Qint[4], b: Qint[4], c: Qint[4]) -> Tuple[Qint[4], Qint[4], Qint[4], Qint[4], Qint[4]]:\n    return (a + b, b + c, a + c, a + b + c, (a + b) ^ c)\n"})
     ooa = fam_or_of_ands()
     d2 = fam_depth2()
     rt = fam_random()
